@@ -679,6 +679,9 @@ func (rn *Runner) Step(in Input) (err error) {
 		case "":
 		case "*":
 			fr.NetworkInstance = &spb.FlushRequest_All{All: &spb.Empty{}}
+		case "<empty>":
+			// the name field is set, to the empty string (a raw client can send this): names no instance
+			fr.NetworkInstance = &spb.FlushRequest_Name{Name: ""}
 		default:
 			fr.NetworkInstance = &spb.FlushRequest_Name{Name: in.R.NI}
 		}
